@@ -184,6 +184,12 @@ func judge(b []byte, full bool, skip map[string]int) (v *verdict) {
 		if ok, diff := conv.Equal(conv.FromLib(d.pkt), snap); !ok {
 			return &verdict{tname(ty) + "/aliases-input-buffer", "decoded packet changed when the input buffer was overwritten: " + diff}
 		}
+		// (4b) second use: the three list-carrying decoders reset their list explicitly
+		// (`s.Subscriptions[:0]`, `u.Topics[:0]`, a fresh ReturnCodes), so an object that
+		// already holds the result of an earlier decode must end up like a fresh one
+		if pv := reuseCheck(ty, b[:T], want); pv != nil {
+			return pv
+		}
 		// (5) re-encodability of admitted application messages
 		if pv := reencode(d.pkt); pv != nil {
 			return pv
@@ -227,6 +233,37 @@ func judge(b []byte, full bool, skip map[string]int) (v *verdict) {
 		}
 	}
 	return streamCheck(b, want, T)
+}
+
+// primers are valid packets decoded into an object before the input under test.
+var primers = map[byte][]byte{
+	8:  {0x82, 0x0f, 0x00, 0x07, 0x00, 0x03, 'p', '/', '1', 0x01, 0x00, 0x04, 'p', '/', '2', '#', 0x02},
+	9:  {0x90, 0x05, 0x00, 0x07, 0x02, 0x80, 0x01},
+	10: {0xa2, 0x0d, 0x00, 0x07, 0x00, 0x03, 'p', '/', '1', 0x00, 0x04, 'p', '/', '2', '#'},
+}
+
+func reuseCheck(t byte, framed []byte, want *refcodec.Packet) (v *verdict) {
+	pr, ok := primers[t]
+	if !ok {
+		return nil
+	}
+	defer func() {
+		if x := recover(); x != nil {
+			v = &verdict{tname(t) + "/decode-panic", fmt.Sprintf("Decode into a used object panicked: %v\n%s", x, debug.Stack())}
+		}
+	}()
+	g, _ := packet.Type(t).New()
+	if n, err := g.Decode(append([]byte{}, pr...)); err != nil || n != len(pr) {
+		return &verdict{tname(t) + "/rejects-what-reference-accepts", fmt.Sprintf("primer packet %x: n=%d err=%v", pr, n, err)}
+	}
+	n, err := g.Decode(append([]byte{}, framed...))
+	if err != nil || n != len(framed) {
+		return &verdict{tname(t) + "/reuse:verdict", fmt.Sprintf("decode into an object used before: n=%d err=%v, a fresh object accepted all %d bytes", n, err, len(framed))}
+	}
+	if ok, diff := conv.Equal(conv.FromLib(g), want); !ok {
+		return &verdict{tname(t) + "/reuse:fields", "decode into an object that held an earlier packet differs from a fresh decode: " + diff}
+	}
+	return nil
 }
 
 func reencode(g packet.Generic) (v *verdict) {
